@@ -1,1 +1,349 @@
-//! (to be filled in)
+//! W2 `pool`: one real `PoolImpl` under sampled arrival schedules.
+//!
+//! The other validators are a universe of validly signed votes, certificates built from arbitrary
+//! vote subsets (hook H3) and block registrations, delivered in an order decided by the kernel.
+//! After every step the pool's outputs (event channel, return values, finalization log, queries)
+//! are compared with the reference models of `model.rs`.
+
+use std::collections::{BTreeMap, BTreeSet, HashMap};
+use std::sync::{Arc, Mutex, OnceLock};
+
+use alpenglow::consensus::{
+    AddVoteError, Cert, EpochInfo, FastFinalCert, FinalCert, FinalVote, NotarCert, NotarFallbackCert,
+    NotarFallbackVote, NotarVote, Pool, PoolEvent, PoolImpl, SkipCert, SkipFallbackVote, SkipVote,
+    ValidatedCert, ValidatedVote, ValidatorEpochInfo, Vote,
+};
+use alpenglow::crypto::merkle::{BlockHash, GENESIS_BLOCK_HASH};
+use alpenglow::types::Slot;
+use alpenglow::verif::{FinalizationKind, take_finalization_log};
+use alpenglow::{BlockId, ValidatorIndex};
+use tokio::sync::mpsc;
+
+use crate::keys;
+use crate::model::{Blk, CK, VK, VoteId};
+use crate::wire;
+
+pub const MAXV: usize = 12;
+
+pub fn hash_of(b: Blk) -> BlockHash {
+    if b == (0, 0) { GENESIS_BLOCK_HASH } else { wire::synth_hash(b.0, b.1) }
+}
+
+pub fn id_of(b: Blk) -> BlockId {
+    (Slot::new(b.0), hash_of(b))
+}
+
+static REV: OnceLock<Mutex<HashMap<BlockHash, Blk>>> = OnceLock::new();
+
+/// Reverse lookup for synthetic hashes (registered when first produced).
+pub fn blk_of(slot: u64, h: &BlockHash) -> Blk {
+    if *h == GENESIS_BLOCK_HASH {
+        return (0, 0);
+    }
+    let m = REV.get_or_init(|| Mutex::new(HashMap::new()));
+    let mut m = m.lock().unwrap();
+    if let Some(b) = m.get(h) {
+        return *b;
+    }
+    // populate lazily for small tags
+    for t in 0..64u64 {
+        m.entry(wire::synth_hash(slot, t)).or_insert((slot, t));
+    }
+    m.get(h).copied().unwrap_or((slot, u64::MAX))
+}
+
+#[derive(Clone)]
+pub enum TypedVote {
+    Notar(NotarVote),
+    NotarFallback(NotarFallbackVote),
+    Skip(SkipVote),
+    SkipFallback(SkipFallbackVote),
+    Final(FinalVote),
+}
+
+struct VoteMemo {
+    typed: HashMap<VoteId, TypedVote>,
+    validated: HashMap<VoteId, ValidatedVote>,
+}
+
+static VOTES: OnceLock<Mutex<VoteMemo>> = OnceLock::new();
+static CANON_EPOCH: OnceLock<EpochInfo> = OnceLock::new();
+
+fn canon_epoch() -> &'static EpochInfo {
+    CANON_EPOCH.get_or_init(|| keys::epoch(&vec![1; 64]))
+}
+
+pub fn typed_vote(id: VoteId) -> TypedVote {
+    let m = VOTES.get_or_init(|| Mutex::new(VoteMemo { typed: HashMap::new(), validated: HashMap::new() }));
+    if let Some(t) = m.lock().unwrap().typed.get(&id) {
+        return t.clone();
+    }
+    let kp = keys::keypair(id.v);
+    let me = ValidatorIndex::new(id.v as u64);
+    let slot = Slot::new(id.slot);
+    let t = match id.kind {
+        VK::Notar => TypedVote::Notar(NotarVote::new(slot, hash_of((id.slot, id.tag)), &kp.vsk, me)),
+        VK::NotarFallback => TypedVote::NotarFallback(NotarFallbackVote::new(slot, hash_of((id.slot, id.tag)), &kp.vsk, me)),
+        VK::Skip => TypedVote::Skip(SkipVote::new(slot, &kp.vsk, me)),
+        VK::SkipFallback => TypedVote::SkipFallback(SkipFallbackVote::new(slot, &kp.vsk, me)),
+        VK::Final => TypedVote::Final(FinalVote::new(slot, &kp.vsk, me)),
+    };
+    m.lock().unwrap().typed.insert(id, t.clone());
+    t
+}
+
+pub fn plain_vote(id: VoteId) -> Vote {
+    match typed_vote(id) {
+        TypedVote::Notar(v) => Vote::Notar(v),
+        TypedVote::NotarFallback(v) => Vote::NotarFallback(v),
+        TypedVote::Skip(v) => Vote::Skip(v),
+        TypedVote::SkipFallback(v) => Vote::SkipFallback(v),
+        TypedVote::Final(v) => Vote::Final(v),
+    }
+}
+
+/// Validated vote (signature checked once per process by the crate's own `ValidatedVote::try_new`).
+pub fn validated_vote(id: VoteId) -> ValidatedVote {
+    let m = VOTES.get_or_init(|| Mutex::new(VoteMemo { typed: HashMap::new(), validated: HashMap::new() }));
+    if let Some(v) = m.lock().unwrap().validated.get(&id) {
+        return v.clone();
+    }
+    let v = ValidatedVote::try_new(plain_vote(id), canon_epoch()).expect("harness-signed vote must validate");
+    m.lock().unwrap().validated.insert(id, v.clone());
+    v
+}
+
+/// Builds a certificate of the given type from the given signer sets (first set: primary kind,
+/// second set: fallback kind for the mixed certificates). Uses the crate's constructors (H3).
+pub fn build_cert(ck: CK, slot: u64, tag: u64, primary: &[usize], fallback: &[usize], validators: &[alpenglow::ValidatorInfo]) -> Option<Cert> {
+    let nv = |v: &usize| match typed_vote(VoteId { v: *v, kind: VK::Notar, slot, tag }) {
+        TypedVote::Notar(x) => x,
+        _ => unreachable!(),
+    };
+    let nfv = |v: &usize| match typed_vote(VoteId { v: *v, kind: VK::NotarFallback, slot, tag }) {
+        TypedVote::NotarFallback(x) => x,
+        _ => unreachable!(),
+    };
+    let sv = |v: &usize| match typed_vote(VoteId { v: *v, kind: VK::Skip, slot, tag: 0 }) {
+        TypedVote::Skip(x) => x,
+        _ => unreachable!(),
+    };
+    let sfv = |v: &usize| match typed_vote(VoteId { v: *v, kind: VK::SkipFallback, slot, tag: 0 }) {
+        TypedVote::SkipFallback(x) => x,
+        _ => unreachable!(),
+    };
+    let fv = |v: &usize| match typed_vote(VoteId { v: *v, kind: VK::Final, slot, tag: 0 }) {
+        TypedVote::Final(x) => x,
+        _ => unreachable!(),
+    };
+    if primary.is_empty() && fallback.is_empty() {
+        return None;
+    }
+    Some(match ck {
+        CK::Notar => {
+            if primary.is_empty() {
+                return None;
+            }
+            Cert::Notar(NotarCert::try_new(&primary.iter().map(nv).collect::<Vec<_>>(), validators).ok()?)
+        }
+        CK::FastFinal => {
+            if primary.is_empty() {
+                return None;
+            }
+            Cert::FastFinal(FastFinalCert::try_new(&primary.iter().map(nv).collect::<Vec<_>>(), validators).ok()?)
+        }
+        CK::NotarFallback => Cert::NotarFallback(
+            NotarFallbackCert::try_new(
+                &primary.iter().map(nv).collect::<Vec<_>>(),
+                &fallback.iter().map(nfv).collect::<Vec<_>>(),
+                validators,
+            )
+            .ok()?,
+        ),
+        CK::Skip => Cert::Skip(
+            SkipCert::try_new(&primary.iter().map(sv).collect::<Vec<_>>(), &fallback.iter().map(sfv).collect::<Vec<_>>(), validators).ok()?,
+        ),
+        CK::Final => {
+            if primary.is_empty() {
+                return None;
+            }
+            Cert::Final(FinalCert::try_new(&primary.iter().map(fv).collect::<Vec<_>>(), validators).ok()?)
+        }
+    })
+}
+
+type CertCache = HashMap<(Vec<u8>, Vec<u64>), bool>;
+static CERT_VALID: OnceLock<Mutex<CertCache>> = OnceLock::new();
+
+/// `ValidatedCert::try_new` verdict, memoised by (certificate bytes, stake vector).
+pub fn cert_valid(cert: &Cert, epoch: &EpochInfo, stakes: &[u64]) -> bool {
+    let key = (wincode::serialize(cert).expect("serialize cert"), stakes.to_vec());
+    let m = CERT_VALID.get_or_init(|| Mutex::new(HashMap::new()));
+    if let Some(v) = m.lock().unwrap().get(&key) {
+        return *v;
+    }
+    let ok = ValidatedCert::try_new(cert.clone(), epoch).is_ok();
+    let mut g = m.lock().unwrap();
+    if g.len() > 400_000 {
+        g.clear();
+    }
+    g.insert(key, ok);
+    ok
+}
+
+pub fn ck_of(c: &Cert) -> CK {
+    match c {
+        Cert::Notar(_) => CK::Notar,
+        Cert::NotarFallback(_) => CK::NotarFallback,
+        Cert::Skip(_) => CK::Skip,
+        Cert::FastFinal(_) => CK::FastFinal,
+        Cert::Final(_) => CK::Final,
+    }
+}
+
+pub fn cert_key(c: &Cert) -> (u64, CK, u64) {
+    let slot = c.slot().inner();
+    let tag = c.block_hash().map_or(0, |h| blk_of(slot, h).1);
+    (slot, ck_of(c), tag)
+}
+
+#[derive(Debug, Default)]
+pub struct StepOut {
+    pub certs: Vec<Cert>,
+    pub parent_ready: Vec<(u64, Blk)>,
+    pub s2n: Vec<Blk>,
+    pub s2s: Vec<u64>,
+    pub standstill: Vec<(u64, Vec<Cert>, Vec<Vote>)>,
+    pub repairs: Vec<Blk>,
+    pub fin_direct: Vec<Blk>,
+    pub fin_implicit: Vec<Blk>,
+    pub fin_skipped: Vec<u64>,
+}
+
+pub struct PoolHarness {
+    pub n: usize,
+    pub own: usize,
+    pub stakes: Vec<u64>,
+    pub epoch: EpochInfo,
+    pub vepoch: Arc<ValidatorEpochInfo>,
+    pub pool: PoolImpl,
+    ev_rx: mpsc::Receiver<PoolEvent>,
+    rep_rx: mpsc::Receiver<BlockId>,
+    rt: tokio::runtime::Runtime,
+}
+
+impl PoolHarness {
+    pub fn new(stakes: &[u64], own: usize) -> Self {
+        let epoch = keys::epoch(stakes);
+        let vepoch = keys::vepoch(own, stakes);
+        let (ev_tx, ev_rx) = mpsc::channel(4096);
+        let (rep_tx, rep_rx) = mpsc::channel(4096);
+        let pool = PoolImpl::new(vepoch.clone(), ev_tx, rep_tx);
+        let rt = tokio::runtime::Builder::new_current_thread().build().expect("rt");
+        let _ = take_finalization_log();
+        Self { n: stakes.len(), own, stakes: stakes.to_vec(), epoch, vepoch, pool, ev_rx, rep_rx, rt }
+    }
+
+    pub fn add_vote(&mut self, id: VoteId) -> Result<(), AddVoteError> {
+        let v = validated_vote(id);
+        self.rt.block_on(self.pool.add_vote(v))
+    }
+
+    /// Returns Err(()) if the certificate does not pass `ValidatedCert::try_new`, else the pool's verdict.
+    pub fn add_cert(&mut self, cert: Cert) -> Result<Result<(), String>, ()> {
+        // validation cost is paid once per distinct certificate through the memo
+        if !cert_valid(&cert, &self.epoch, &self.stakes) {
+            return Err(());
+        }
+        let v = ValidatedCert::try_new(cert, &self.epoch).map_err(|_| ())?;
+        Ok(self.rt.block_on(self.pool.add_cert(v)).map_err(|e| format!("{e:?}")))
+    }
+
+    pub fn add_block(&mut self, b: Blk, parent: Blk) {
+        self.rt.block_on(self.pool.add_block(id_of(b), id_of(parent)));
+    }
+
+    pub fn standstill(&mut self) {
+        self.rt.block_on(self.pool.recover_from_standstill());
+    }
+
+    pub fn drain(&mut self) -> StepOut {
+        let mut out = StepOut::default();
+        while let Ok(ev) = self.ev_rx.try_recv() {
+            match ev {
+                PoolEvent::CertCreated(c) => out.certs.push(c),
+                PoolEvent::ParentReady { slot, parent } => out.parent_ready.push((slot.inner(), blk_of(parent.0.inner(), &parent.1))),
+                PoolEvent::SafeToNotar((s, h)) => out.s2n.push(blk_of(s.inner(), &h)),
+                PoolEvent::SafeToSkip(s) => out.s2s.push(s.inner()),
+                PoolEvent::Standstill(s, c, v) => out.standstill.push((s.inner(), c, v)),
+            }
+        }
+        while let Ok((s, h)) = self.rep_rx.try_recv() {
+            out.repairs.push(blk_of(s.inner(), &h));
+        }
+        for rec in take_finalization_log() {
+            match rec.kind {
+                FinalizationKind::Finalized(s, h) => out.fin_direct.push(blk_of(s.inner(), &h)),
+                FinalizationKind::ImplicitlyFinalized(s, h) => out.fin_implicit.push(blk_of(s.inner(), &h)),
+                FinalizationKind::ImplicitlySkipped(s) => out.fin_skipped.push(s.inner()),
+                FinalizationKind::BlockRegistered(..) => {}
+            }
+        }
+        out
+    }
+
+    pub fn pool_wait(&mut self, slot: u64) -> either::Either<Blk, tokio::sync::oneshot::Receiver<BlockId>> {
+        match self.pool.wait_for_parent_ready(Slot::new(slot)) {
+            either::Either::Left((s, h)) => either::Either::Left(blk_of(s.inner(), &h)),
+            either::Either::Right(rx) => either::Either::Right(rx),
+        }
+    }
+
+    pub fn parents_ready(&self, slot: u64) -> BTreeSet<Blk> {
+        self.pool.parents_ready(Slot::new(slot)).iter().map(|(s, h)| blk_of(s.inner(), h)).collect()
+    }
+
+    pub fn finalized_slot(&self) -> u64 {
+        self.pool.finalized_slot().inner()
+    }
+
+    pub fn watermark(&self) -> u64 {
+        self.pool.verif_first_unpruned_slot().inner()
+    }
+}
+
+/// Feeds a standstill bundle to a fresh pool of the same validator and returns it.
+pub fn fresh_pool_from_bundle(stakes: &[u64], own: usize, certs: &[Cert], votes: &[Vote]) -> Result<PoolHarness, String> {
+    let mut h = PoolHarness::new(stakes, own);
+    for c in certs {
+        if !cert_valid(c, &h.epoch, stakes) {
+            return Err(format!("bundle certificate fails validation: {:?} slot {}", ck_of(c), c.slot()));
+        }
+        let v = ValidatedCert::try_new(c.clone(), &h.epoch).map_err(|e| format!("{e:?}"))?;
+        let _ = h.rt.block_on(h.pool.add_cert(v));
+    }
+    for v in votes {
+        let vv = ValidatedVote::try_new(v.clone(), &h.epoch).map_err(|e| format!("bundle vote fails validation: {e:?}"))?;
+        let _ = h.rt.block_on(h.pool.add_vote(vv));
+    }
+    let _ = h.drain();
+    Ok(h)
+}
+
+pub fn vote_id_of(v: &Vote) -> VoteId {
+    let slot = v.slot().inner();
+    let (kind, tag) = match v {
+        Vote::Notar(x) => (VK::Notar, blk_of(slot, x.block_hash()).1),
+        Vote::NotarFallback(x) => (VK::NotarFallback, blk_of(slot, x.block_hash()).1),
+        Vote::Skip(_) => (VK::Skip, 0),
+        Vote::SkipFallback(_) => (VK::SkipFallback, 0),
+        Vote::Final(_) => (VK::Final, 0),
+    };
+    VoteId { v: v.signer().as_usize(), kind, slot, tag }
+}
+
+pub type CertSet = BTreeMap<(u64, CK), BTreeSet<u64>>;
+
+pub fn certset_insert(cs: &mut CertSet, key: (u64, CK, u64)) -> bool {
+    cs.entry((key.0, key.1)).or_default().insert(key.2)
+}
